@@ -1,6 +1,8 @@
 SPECIFICATION Spec
 CONSTANTS MaxBr = 2 MaxN = 2 CopyMode = "shallow"
   BufSizes <- BufAll
+  FillBr = 2
+  FillTemplates <- FillFew
   Templates <- FewTemplates
 INVARIANT Isolated
 CHECK_DEADLOCK FALSE
